@@ -46,6 +46,23 @@ fn run(word: &str, g: bool, seed: u64, cfg: &Cfg, excl: &[usize]) -> (String, Ve
     (w, e)
 }
 
+/// does `res` contain a grapheme cluster that occurs neither in `word` nor in any edit string of `cfg`?
+fn fused(word: &str, cfg: &Cfg, res: &str) -> bool {
+    let mut known: HashSet<Vec<u64>> = clusters(word, true).into_iter().collect();
+    let mut add = |es: &Vec<String>| {
+        for e in es {
+            known.extend(clusters(e, true));
+        }
+    };
+    if let Some(t) = &cfg.ins {
+        t.iter().for_each(|(_, es)| add(es));
+    }
+    if let Some(t) = &cfg.rep {
+        t.iter().for_each(|(_, es)| add(es));
+    }
+    clusters(res, true).iter().any(|c| !known.contains(c))
+}
+
 fn rd_cl(r: &mut Rd) -> R<String> {
     cps_to_string(&r.nats()?)
 }
@@ -103,14 +120,16 @@ pub fn exec(op: &str, a: &[u64]) -> Result<Outcome, String> {
     let mut o = Outcome::new("accept".to_string());
     // C15 oracle on the implementation's result
     let n_new = clusters(&w, g).len();
-    // F16: in grapheme mode an inserted / neighbouring combining mark can fuse with its neighbour
     let rw_real = clusters(&w, g);
     if rw_real != rw_t {
-        if g {
-            o.check(false, "F16 edited word re-segments differently (an inserted string fuses with a neighbouring character)");
-        } else {
-            o.check(false, "result segmentation differs");
-        }
+        o.check(false, "result segmentation differs from the recorded one");
+        return Ok(o);
+    }
+    // F16: in grapheme mode an inserted / replacing string can fuse with a neighbouring character when the edited
+    // word is segmented again: the result then contains a cluster that is neither a character of the word nor of
+    // any edit string, and positions (hence the returned exclusion set) no longer refer to the same characters
+    if g && fused(&word, &cfg, &w) {
+        o.check(false, "F16 edited word re-segments differently (an edit string fuses with a neighbouring character into a new grapheme cluster)");
         return Ok(o);
     }
     o.check(e.iter().all(|&i| i < n_new), "returned exclusion index outside the new word");
@@ -232,6 +251,8 @@ fn rand_edits(ctx: &mut Ctx, allow_empty: bool) -> Vec<String> {
             1 => "xy".into(),
             2 => "\u{4e2d}".into(),
             3 => "a\u{e4}c".into(),
+            // a combining mark: in grapheme mode it fuses with the character before it (F16)
+            4 if ctx.rng.random_range(0..4) == 0 => "\u{301}".into(),
             _ => CHARS[ctx.rng.random_range(0..CHARS.len())].into(),
         })
         .collect()
@@ -281,6 +302,9 @@ pub fn run_c15(ctx: &mut Ctx) {
             match emit(ctx, &w, g, &cfg, &excl, seed) {
                 Some((w2, e2)) => {
                     // stop a chain whose result re-segments differently (F16)
+                    if g && fused(&w, &cfg, &w2) {
+                        break;
+                    }
                     w = w2;
                     excl = e2;
                 }
